@@ -749,3 +749,81 @@ func (p *c09Plan) desc() string {
 	}
 	return fmt.Sprintf("chans=%s issuers=%d steps=%d", kinds, len(p.issuers), steps)
 }
+
+// c09LargeTruncPlan: one channel preloaded with 300-900 rows, a low committed
+// watermark, then (exact mode) a rejected proposal-splitting cut far back and a
+// Truncate / TruncateLogAndHistory removing 256-800 rows, followed by a restart
+// and a few ordinary steps. A suffix that large must still disappear in one
+// atomic mutation; a rejected cut must leave no trace.
+func c09LargeTruncPlan(rng *rand.Rand, exact bool) *c09Plan {
+	ch := &c09Chan{Idx: 0, Key: channel.ChannelKey("2:big0"), ID: channel.ChannelID{ID: "big0", Type: 2}, Exact: exact}
+	g := c09NewGen(rand.New(rand.NewPCG(rng.Uint64(), rng.Uint64())), ch)
+	p := &c09Plan{chans: []*c09Chan{ch}, gens: []*c09Gen{g}, owner: [][]int{{0}}}
+	var ops []c09Op
+	add := func(st *c09Step) {
+		if st != nil {
+			ops = append(ops, c09Op{g.commit(st)})
+		}
+	}
+	small := func(lo, hi int) []*c09Msg {
+		ms := g.newMsgs(lo, hi)
+		for _, m := range ms {
+			if len(m.Payload) > 48 {
+				m.Payload = m.Payload[:48]
+			}
+		}
+		return ms
+	}
+	add(g.genEpoch(g.cur()))
+	total := 300 + rng.IntN(600)
+	for int(g.cur().LEO) < total {
+		s := g.cur()
+		if exact {
+			st := &c09Step{Kind: "xappend", batchable: "append"}
+			base, prev := s.LEO, s.Ents[s.LEO]
+			for rows := 0; rows < 128; {
+				msgs := small(4, 12)
+				pr := c09Seal(g.manifest(base, len(msgs), prev, g.newCmd()), msgs)
+				st.Props = append(st.Props, pr)
+				st.Committed = append(st.Committed, 0)
+				base, prev = pr.Man.LastOffset, pr.Ents[len(pr.Ents)-1]
+				rows += len(msgs)
+			}
+			add(st)
+		} else {
+			add(&c09Step{Kind: "append", Mode: 2, Msgs: small(128, 256), batchable: "append"})
+		}
+	}
+	add(&c09Step{Kind: "ckpthw", HW: uint64(rng.IntN(20)), batchable: "ckpthw"})
+	add(g.genEpoch(g.cur())) // a history point above the cut
+	s := g.cur()
+	floor := g.truncFloor(s)
+	if exact {
+		for _, pr := range s.Props {
+			if pr.Man.BaseOffset >= floor && pr.Man.LastOffset-pr.Man.BaseOffset >= 2 && s.LEO-pr.Man.BaseOffset > 300 {
+				add(&c09Step{Kind: "truncate", Fail: "split", To: pr.Man.BaseOffset + 1, WithHist: rng.IntN(2) == 0})
+				break
+			}
+		}
+	}
+	remove := 256 + uint64(rng.IntN(int(min(545, s.LEO-floor-256))))
+	to := s.LEO - remove
+	if exact {
+		best := floor
+		for _, b := range s.boundaries() {
+			if b >= floor && b <= to {
+				best = b
+			}
+		}
+		to = best
+	}
+	truncAt := len(ops)
+	add(&c09Step{Kind: "truncate", To: to, WithHist: rng.IntN(2) == 0})
+	for i := 0; i < 3; i++ {
+		ops = append(ops, c09Op{g.gen("")}) // gen commits the step itself
+	}
+	p.issuers = [][]c09Op{ops}
+	p.restart = make([]int, len(ops))
+	p.restart[truncAt+1] = 1 + rng.IntN(2)
+	return p
+}
